@@ -1100,7 +1100,22 @@ class World:
         pyname = cs.get("pyname", cname)  # several generated classes may deliberately share one Python name
         ns = {"__qualname__": pyname, "__module__": "verif_world"}
         self._cur_pyname = pyname
-        if cs.get("init") is not None:
+        if cs.get("intern"):
+            # a class of interned ("flyweight") objects: no __init__, and __new__ hands out the existing instance of a label
+            def __new__(cls_, t):
+                a = run.actor()
+                tx = a.tstack[-1]
+                label = tx.td.get("obj")
+                ex = run.world.objects.get(label)
+                if ex is not None and type(ex) is cls_:
+                    run.ev("interned", None, tx.xid, label)
+                    return ex
+                o = object.__new__(cls_)
+                run.body(o, is_ctor=True)
+                return o
+
+            ns["__new__"] = __new__
+        elif cs.get("init") is not None:
             init_base = base_cls if (base_cls is not None and self._spec_has_init(base_name)) else None
             ns["__init__"] = self._build_init(cname, cs["init"], init_base)
         for ms in cs.get("methods", ()):
